@@ -429,6 +429,8 @@ PROPS["C04"] = {
         # feedback lines produced by the reference server's real printer (names / messages with %, colons, tabs, unicode)
         # feedback attached to a matching result by the reference client, with the server under test or the reference server
         {"name": "C04ClientFeedback", "pkg": CC, "test": "TestVerifC04ClientFeedback", "kind": "enum"},
+        # feedback reported while the case's own answer is still outstanding and another server's batch ends in between
+        {"name": "C04FeedbackRace", "pkg": CC, "test": "TestVerifC04FeedbackRace", "kind": "enum", "timeout": 900},
         {"name": "C04Printer", "pkg": CC, "test": "TestVerifC04Printer", "kind": "enum"},
         # the server under test is gone (status 0 or killed) after k of n cases: the rest counts against success whatever its marking
         {"name": "C04ServerExit", "pkg": CC, "test": "TestVerifC04ServerExit", "kind": "enum"},
